@@ -374,6 +374,18 @@ func funcInfoOf(name string) funcInfo {
 //@   loop 1 invariant[C05] frame: routeOK(c) && c.funcs == old(c.funcs)
 //@   ensures[C05,C16] still-in-function: c.funcs == old(c.funcs) && result == nil && routeOK(c)
 
+// File builtins (C17): the content travels in the global register _fa0 (a line feed cannot be an
+// argument), path and append flag are the helper's arguments in this order; read copies the
+// helper's result register into a fresh helper; exists sets a fresh helper to 1 or 0.
+//@ func (*converter).WriteFile
+//@   ensures[C17] content-in-register-then-helper-call: appended(specBlock(c), old(specBlockBefore(c)), specSet("_fa0", content), "call :_fwh " + path + " " + append) && result == nil
+//
+//@ func (*converter).ReadFile
+//@   ensures[C17] helper-call-then-copy-of-its-register: appended(specBlock(c), old(specBlockBefore(c)), "call :_frh " + path, specSet(specName(len(c.funcs) > 0, c.funcCounter, specHelperName(old(c.varCounter)), false), "!_h!")) && result0 == specRef(specName(len(c.funcs) > 0, c.funcCounter, specHelperName(old(c.varCounter)), false)) && c.varCounter == old(c.varCounter) + 1 && err == nil
+//
+//@ func (*converter).Exists
+//@   ensures[C17] if-exist-sets-a-fresh-helper: appended(specBlock(c), old(specBlockBefore(c)), "if exist \"" + path + "\" (" + specSet(specName(len(c.funcs) > 0, c.funcCounter, specHelperName(old(c.varCounter)), false), "1") + ") else " + specSet(specName(len(c.funcs) > 0, c.funcCounter, specHelperName(old(c.varCounter)), false), "0")) && result0 == specRef(specName(len(c.funcs) > 0, c.funcCounter, specHelperName(old(c.varCounter)), false)) && c.varCounter == old(c.varCounter) + 1 && err == nil
+
 // specWord: how the Batch converter writes one argument of an external command (quoted when it is a
 // %reference% or contains a blank, bare otherwise).
 func specWord(a string) string {
